@@ -54,6 +54,8 @@ def module_attr(ex, mod, attr, node):
         return Func("builtin", "math." + attr)
     if mod.name == "itertools":
         return Func("builtin", "itertools." + attr)
+    if mod.name == "time":
+        return Func("builtin", "time." + attr)
     if mod.name == "np.linalg":
         return Func("builtin", "np.linalg." + attr)
     raise OutOfSubset("%s.%s" % (mod.name, attr), node)
@@ -106,6 +108,11 @@ def _minmax(ex, name, xs, node):
 
 def call_builtin(ex, name, args, kwargs, node):
     S = ex.S
+    if name in ("time.perf_counter", "time.time", "time.time_ns"):
+        return S.real("clock")       # an arbitrary real: nothing is assumed about the clock
+    if name == "pyvc.call_through":
+        # LogUtility.time_func(msg, fn, *args): calls fn(*args) exactly once and returns its result (assumed of Utils.LogUtility)
+        return ex.call(args[1], list(args[2:]), {}, node)
     if name == "np.isscalar":
         (x,) = args
         if isinstance(x, OptV):
